@@ -7,6 +7,7 @@ package recent_history
 import (
 	"fmt"
 	"math/bits"
+	"strings"
 	"testing"
 
 	"github.com/New-JAMneration/JAM-Protocol/internal/types"
@@ -21,23 +22,53 @@ type c19Case struct {
 	N0    int    `json:"n0"`    // items already in the restored peak list (0 with via=mmr: NewMMR)
 	Spare bool   `json:"spare"` // restored list has spare capacity
 	N     int    `json:"n"`     // chain continues until N items
+	Items string `json:"items"` // item pattern: "" / default | zero2 | zero3 | seq:<digits over 0 fresh,1 zero hash,2 repeat previous>
 }
 
-// c19Items: distinct Keccak hashes, except: item 0 and item 5 are the all-zero
-// hash (a valid hash value, must not be taken for "empty") and item 7 = item 6.
-func c19Items(n int) []refmmr.Hash {
+// c19Items builds the item sequence of a pattern:
+//   default : distinct Keccak hashes, except items 0 and 5 = the all-zero hash (a valid hash value that must not be
+//             taken for "empty" or "nothing seen yet") and item 7 = item 6;
+//   zero2   : every 2nd item (indices 0,2,4,..) is the all-zero hash — every odd count has peak 0 = H^0;
+//   zero3   : every 3rd item (indices 0,3,6,..) is the all-zero hash;
+//   seq:d.. : explicit content word, d_i in {0: fresh distinct hash, 1: all-zero hash, 2: repeat of the previous item}.
+func c19Items(pattern string, n int) []refmmr.Hash {
 	out := make([]refmmr.Hash, n)
 	for i := range out {
 		out[i] = refmmr.Keccak([]byte(fmt.Sprintf("c19-item-%d", i)))
 	}
-	if n > 0 {
-		out[0] = refmmr.Hash{}
-	}
-	if n > 5 {
-		out[5] = refmmr.Hash{}
-	}
-	if n > 7 {
-		out[7] = out[6]
+	switch {
+	case pattern == "" || pattern == "default":
+		if n > 0 {
+			out[0] = refmmr.Hash{}
+		}
+		if n > 5 {
+			out[5] = refmmr.Hash{}
+		}
+		if n > 7 {
+			out[7] = out[6]
+		}
+	case pattern == "zero2" || pattern == "zero3":
+		k := int(pattern[4] - '0')
+		for i := 0; i < n; i += k {
+			out[i] = refmmr.Hash{}
+		}
+	case strings.HasPrefix(pattern, "seq:"):
+		w := pattern[4:]
+		if len(w) != n {
+			panic("c19: content word length != n")
+		}
+		for i := range out {
+			switch w[i] {
+			case '1':
+				out[i] = refmmr.Hash{}
+			case '2':
+				if i > 0 {
+					out[i] = out[i-1]
+				}
+			}
+		}
+	default:
+		panic("c19: unknown item pattern " + pattern)
 	}
 	return out
 }
@@ -48,8 +79,8 @@ type c19Ref struct {
 	super []refmmr.Hash
 }
 
-func c19BuildRef(n int) *c19Ref {
-	ref := &c19Ref{items: c19Items(n)}
+func c19BuildRef(pattern string, n int) *c19Ref {
+	ref := &c19Ref{items: c19Items(pattern, n)}
 	for k := 0; k <= n; k++ {
 		p := refmmr.Peaks(ref.items[:k])
 		ref.peaks = append(ref.peaks, p)
@@ -181,6 +212,14 @@ func c19Run(r *vlib.Run, ref *c19Ref, c c19Case) {
 		merges := bits.TrailingZeros(^uint(n))
 		grew := len(ref.peaks[n+1]) > len(ref.peaks[n])
 		key := fmt.Sprintf("via=%s;merges=%d;grew=%v", c.Via, merges, grew)
+		zeroPeak := false // a present peak that IS the all-zero hash (only peak 0 can be: merged peaks are Keccak outputs)
+		for _, p := range ref.peaks[n+1] {
+			if p != nil && *p == (refmmr.Hash{}) {
+				zeroPeak = true
+			}
+		}
+		npk := bits.OnesCount(uint(n + 1))
+		r.Class(fmt.Sprintf("superpeak peaks=%d zero-valued-peak=%v", min(npk, 3), zeroPeak))
 		if n == c.N0 {
 			r.Class(fmt.Sprintf("first append via=%s start=%s spare=%v merges=%d grew=%v", c.Via, start, c.Spare, min(merges, 3), grew))
 		} else {
@@ -205,7 +244,7 @@ func c19Run(r *vlib.Run, ref *c19Ref, c c19Case) {
 			if c.Via == "commit" {
 				s2 = site
 			}
-			r.Violation(s2, "wrong-superpeak", fmt.Sprintf("via=%s;peaks-present=%d", c.Via, bits.OnesCount(uint(n+1))), fmt.Sprintf("after %d items: commitment %x, GP super-peak %x", n+1, commit[:], ref.super[n+1][:]), c)
+			r.Violation(s2, "wrong-superpeak", fmt.Sprintf("via=%s;peaks-present=%d;zero-valued-peak=%v", c.Via, min(npk, 3), zeroPeak), fmt.Sprintf("after %d items: commitment %x, GP super-peak %x", n+1, commit[:], ref.super[n+1][:]), c)
 		}
 		// no list handed out (or in) earlier may have changed
 		for _, s := range snaps {
@@ -221,7 +260,7 @@ func c19Run(r *vlib.Run, ref *c19Ref, c c19Case) {
 	if c.Via != "commit" && c.N0 <= c.N {
 		in := c19Restored(ref, c.N0, false)
 		if got := sp.SuperPeak(in); [32]byte(got) != ref.super[c.N0] {
-			r.Violation("mmr.MMR.SuperPeak", "wrong-superpeak", fmt.Sprintf("via=direct;peaks-present=%d", bits.OnesCount(uint(c.N0))), fmt.Sprintf("%d items: %x, GP super-peak %x", c.N0, got[:], ref.super[c.N0][:]), c)
+			r.Violation("mmr.MMR.SuperPeak", "wrong-superpeak", fmt.Sprintf("via=direct;peaks-present=%d;zero-valued-peak=%v", min(bits.OnesCount(uint(c.N0)), 3), c.N0%2 == 1 && ref.items[c.N0-1] == (refmmr.Hash{})), fmt.Sprintf("%d items: %x, GP super-peak %x", c.N0, got[:], ref.super[c.N0][:]), c)
 		}
 		r.Transition()
 	}
@@ -236,34 +275,67 @@ func TestVerif_C19(t *testing.T) {
 	defer r.Finish()
 	var rc c19Case
 	if r.IsReplay(&rc) {
-		c19Run(r, c19BuildRef(rc.N), rc)
+		c19Run(r, c19BuildRef(rc.Items, rc.N), rc)
 		return
 	}
 	n := vlib.Pick(r, 300, 700)
-	ref := c19BuildRef(n + 1) // the list restored at n items gets one more append
-	// self-check of the reference against the append recursion's defining property
-	for k := 0; k <= n+1; k++ {
-		for i, p := range ref.peaks[k] {
-			if (p != nil) != (k&(1<<uint(i)) != 0) {
-				t.Fatalf("reference: bit %d of %d", i, k)
-			}
-		}
-	}
 	idx := uint64(0)
-	run := func(c c19Case) {
-		idx++
-		if r.Mine(idx) {
-			c19Run(r, ref, c)
-		}
-	}
-	run(c19Case{Via: "mmr", N0: 0, N: n + 1})
-	for n0 := 0; n0 <= n; n0++ {
-		for _, via := range []string{"wrapper", "frompeaks", "commit"} {
-			for _, spare := range []bool{false, true} {
-				// every restored list: one append at least; the full chain to n from every restored list
-				run(c19Case{Via: via, N0: n0, Spare: spare, N: n + 1})
+	states := 0
+	// (A) long chains, three content patterns, restored at every n0
+	for _, pattern := range []string{"default", "zero2", "zero3"} {
+		ref := c19BuildRef(pattern, n+1) // the list restored at n items gets one more append
+		// self-check of the reference against the append recursion's defining property
+		for k := 0; k <= n+1; k++ {
+			for i, p := range ref.peaks[k] {
+				if (p != nil) != (k&(1<<uint(i)) != 0) {
+					t.Fatalf("reference: bit %d of %d", i, k)
+				}
 			}
 		}
+		run := func(c c19Case) {
+			idx++
+			if r.Mine(idx) {
+				c.Items = pattern
+				c19Run(r, ref, c)
+			}
+		}
+		run(c19Case{Via: "mmr", N0: 0, N: n + 1})
+		for n0 := 0; n0 <= n; n0++ {
+			for _, via := range []string{"wrapper", "frompeaks", "commit"} {
+				for _, spare := range []bool{false, true} {
+					if spare && pattern != "default" && r.Thorough() {
+						continue // thorough: spare-capacity lists only with the default contents (cost)
+					}
+					// every restored list: one append at least; the full chain to n from every restored list
+					run(c19Case{Via: via, N0: n0, Spare: spare, N: n + 1})
+				}
+			}
+		}
+		states += n + 2
 	}
-	r.StateCount(uint64(n + 2))
+	// (B) content axis: EVERY content word of length <= L over {fresh, zero hash, repeat previous}:
+	// chained from empty through AppendOne and through AppendAndCommitMmr, and restored at every prefix
+	// (NewMMRFromPeaks) and continued.
+	maxL := vlib.Pick(r, 7, 9)
+	for l := 1; l <= maxL; l++ {
+		vlib.Sequences(3, l, func(w []int) {
+			idx++
+			if !r.Mine(idx) {
+				return
+			}
+			word := make([]byte, l)
+			for i, d := range w {
+				word[i] = byte('0' + d)
+			}
+			pattern := "seq:" + string(word)
+			ref := c19BuildRef(pattern, l)
+			c19Run(r, ref, c19Case{Via: "mmr", N0: 0, N: l, Items: pattern})
+			c19Run(r, ref, c19Case{Via: "commit", N0: 0, N: l, Items: pattern})
+			for n0 := 1; n0 < l; n0++ {
+				c19Run(r, ref, c19Case{Via: "frompeaks", N0: n0, N: l, Items: pattern})
+				c19Run(r, ref, c19Case{Via: "commit", N0: n0, N: l, Items: pattern})
+			}
+		})
+	}
+	r.StateCount(uint64(states))
 }
